@@ -49,6 +49,7 @@ type Case struct {
 	Chain  bool   `json:"chain,omitempty"`
 	T2     Tun    `json:"t2"`
 	Relay  string `json:"relay,omitempty"` // iocopy | readfrom | plain
+	Pre    bool   `json:"pre,omitempty"`   // relay writes three bytes of its own to the client-facing tunnel before it starts copying the response
 	Peek   bool   `json:"peek,omitempty"`  // relay waits for the response to start with a zero-length Read on the onward connection before it starts copying
 	Wait   bool   `json:"wait,omitempty"`  // relay reads the initial payload with a 1440-byte buffer when the request carried none (as service/tcp.go does)
 	Every2 int    `json:"every2,omitempty"`
@@ -297,6 +298,7 @@ type runner struct {
 	// length of the payload the relay handed to the second tunnel's DialStream
 	relayDialed int
 	want        struct{ c2s, s2c []byte }
+	sendS2C     []byte // what the far server writes (want.s2c is what the client must read)
 }
 
 func (r *runner) fail(clause, dir, format string, a ...any) {
@@ -703,7 +705,7 @@ func (r *runner) serverSide(t *tunnel, obs **reqObs, gotC2S *[]byte, doneC2S *bo
 		r.fail("panic", "c2s", "%s", msg)
 		t.b.in.drain()
 	})
-	if !r.sendAll(sc, &c.S2C, "s2c", r.want.s2c) {
+	if !r.sendAll(sc, &c.S2C, "s2c", r.sendS2C) {
 		t.b.out.closeWrite()
 		return
 	}
@@ -713,6 +715,9 @@ func (r *runner) serverSide(t *tunnel, obs **reqObs, gotC2S *[]byte, doneC2S *bo
 		t.b.out.closeWrite()
 	}
 }
+
+// relayGreeting is what a relay with Pre set writes to the client before the response.
+const relayGreeting = "RLY"
 
 type onlyReader struct{ io.Reader }
 type onlyWriter struct{ io.Writer }
@@ -770,6 +775,15 @@ func (r *runner) relaySide(t1, t2 *tunnel, obs **reqObs) {
 		return
 	}
 	r.w.Go("relay-s2c", func() {
+		if c.Pre {
+			r.ops.Add(1)
+			if _, err := sc.Write([]byte(relayGreeting)); err != nil {
+				r.fail("relay-error", "s2c", "relay's own write to the client-facing tunnel: %v", err)
+				t2.a.in.drain()
+				t1.b.out.closeWrite()
+				return
+			}
+		}
 		if c.Peek {
 			r.ops.Add(1)
 			if n, err := cc.Read(nil); n != 0 || (err != nil && err != io.EOF) {
@@ -832,7 +846,11 @@ func runCase(c *Case) *result {
 	res := &result{Logs: map[string][]int{}}
 	r := &runner{c: c, w: newWorld(), mu: make(chan struct{}, 1), res: res}
 	r.want.c2s = dataC2S[:c.P+sum(c.C2S.Sizes)]
-	r.want.s2c = dataS2C[:sum(c.S2C.Sizes)]
+	r.sendS2C = dataS2C[:sum(c.S2C.Sizes)]
+	r.want.s2c = r.sendS2C
+	if c.Pre {
+		r.want.s2c = append([]byte(relayGreeting), r.sendS2C...)
+	}
 
 	vcrand.Deterministic = true
 	vcrand.Reset()
